@@ -46,6 +46,8 @@ type fd struct {
 	off    int64
 	closed bool
 	owner  *Proc
+	// appendMode: every write goes to the current end of the file (O_APPEND)
+	appendMode bool
 }
 
 // Op describes one filesystem call (or an API-call boundary) of a process.
@@ -280,7 +282,7 @@ func (p *Proc) point(op Op) {
 // ENOSPC, EDQUOT on delayed allocation or network filesystems); the descriptor is gone either way.
 func Faultable(kind string) bool {
 	switch kind {
-	case "create", "createx", "open", "tempfile", "rename", "readfile", "readdir", "write", "writefile", "link", "stat", "closew":
+	case "create", "createx", "open", "tempfile", "rename", "readfile", "readdir", "write", "writefile", "link", "stat", "closew", "truncate":
 		return true
 	}
 	return false
@@ -440,10 +442,7 @@ func (w *World) OpenFile(name string, flag int, perm os.FileMode) (rt.File, erro
 			w.HarnessErr = fmt.Errorf("reduction assumption broken: p%d opens %s (created by p%d) for reading", p.ID, b, ino.Creator)
 		}
 	}
-	f := &fd{w: w, ino: ino, name: name, write: wr, owner: p}
-	if flag&os.O_APPEND != 0 {
-		f.off = int64(len(ino.Data))
-	}
+	f := &fd{w: w, ino: ino, name: name, write: wr, owner: p, appendMode: flag&os.O_APPEND != 0}
 	p.fds = append(p.fds, f)
 	ev.Result = fmt.Sprintf("ino%d:%x", ino.ID, ino.Hash())
 	w.record(ev)
@@ -729,6 +728,9 @@ func (f *fd) Write(b []byte) (int, error) {
 		w.record(ev)
 		return 0, pathErr("write", f.name, syscall.EBADF)
 	}
+	if f.appendMode {
+		f.off = int64(len(f.ino.Data))
+	}
 	end := f.off + int64(len(b))
 	if int64(len(f.ino.Data)) < end {
 		nd := make([]byte, end)
@@ -855,6 +857,99 @@ func (f *fd) Stat() (os.FileInfo, error) {
 }
 
 func (f *fd) Sync() error { return nil }
+
+// setSize cuts or zero-extends the inode.
+func (i *Inode) setSize(size int64) {
+	nd := make([]byte, size)
+	copy(nd, i.Data)
+	i.Data = nd
+	i.hashOK = false
+}
+
+// Truncate (by name) is a write to a file everybody can see: always a scheduling point.
+func (w *World) Truncate(name string, size int64) error {
+	b, berr := w.base(name)
+	p := w.enter(Op{Kind: "truncate", Name: b}, true)
+	ev := &Event{Pid: p.ID, Op: Op{Kind: "truncate", Name: b}}
+	if p.takeFault() {
+		ev.Err = "EIO"
+		w.record(ev)
+		return pathErr("truncate", name, syscall.EIO)
+	}
+	ino := w.names[b]
+	if berr != nil || ino == nil {
+		ev.Err = "ENOENT"
+		w.record(ev)
+		return pathErr("truncate", name, syscall.ENOENT)
+	}
+	if size < 0 {
+		ev.Err = "EINVAL"
+		w.record(ev)
+		return pathErr("truncate", name, syscall.EINVAL)
+	}
+	ino.setSize(size)
+	ev.Mutated = true
+	ev.NewIno = ino
+	ev.Result = fmt.Sprint(size)
+	w.record(ev)
+	return nil
+}
+
+func (f *fd) Truncate(size int64) error {
+	w := f.w
+	bn := filepath.Base(f.name)
+	vis := w.linkedPublicly(f.ino) || w.othersHave(f.ino, f.owner, false)
+	p := w.enter(Op{Kind: "truncate", Name: bn}, vis)
+	ev := &Event{Pid: p.ID, Op: Op{Kind: "truncate", Name: bn}}
+	if p.takeFault() {
+		ev.Err = "EIO"
+		w.record(ev)
+		return pathErr("truncate", f.name, syscall.EIO)
+	}
+	if f.closed || !f.write || size < 0 {
+		ev.Err = "EINVAL"
+		w.record(ev)
+		return pathErr("truncate", f.name, syscall.EINVAL)
+	}
+	f.ino.setSize(size)
+	ev.Mutated = true
+	ev.NewIno = f.ino
+	ev.Result = fmt.Sprint(size)
+	w.record(ev)
+	return nil
+}
+
+// Seek moves the descriptor's own offset: local to the process, not a filesystem call of interest.
+func (f *fd) Seek(offset int64, whence int) (int64, error) {
+	if f.closed {
+		return 0, pathErr("seek", f.name, os.ErrClosed)
+	}
+	switch whence {
+	case io.SeekStart:
+	case io.SeekCurrent:
+		offset += f.off
+	case io.SeekEnd:
+		offset += int64(len(f.ino.Data))
+	default:
+		return 0, pathErr("seek", f.name, syscall.EINVAL)
+	}
+	if offset < 0 {
+		return 0, pathErr("seek", f.name, syscall.EINVAL)
+	}
+	f.off = offset
+	return offset, nil
+}
+
+func (f *fd) WriteAt(b []byte, off int64) (int, error) {
+	if f.appendMode {
+		return 0, pathErr("writeat", f.name, errors.New("invalid use of WriteAt on file opened with O_APPEND"))
+	}
+	saved := f.off
+	f.off = off
+	n, err := f.Write(b)
+	f.off = saved
+	return n, err
+}
 
 var _ rt.Env = (*World)(nil)
 var _ = errors.New
